@@ -122,6 +122,29 @@ func c15Compare(c *core.Ctx, cfg bandCfg, b band.Band, up []chModel, down []chMo
 			}
 		}
 	}
+	// every data-rate index -1..16 against the frequencies of a few channels: an index is returned exactly
+	// when some channel on that frequency carries the data-rate, and that channel is the one returned
+	for k := 0; k < len(up) && k < 80; k += 1 + len(up)/12 {
+		f := up[k].freq
+		for dr := -1; dr <= 16; dr++ {
+			exists := false
+			for _, ch := range up {
+				if ch.freq == f && dr >= ch.min && dr <= ch.max {
+					exists = true
+				}
+			}
+			var idx int
+			var err error
+			c.Eval(1)
+			if p, msg := core.Guard(func() { idx, err = b.GetUplinkChannelIndexForFrequencyDR(f, dr) }); p {
+				bad("panic|GetUplinkChannelIndexForFrequencyDR", "(%d Hz, DR%d): %s", f, dr, short(msg, 150))
+			} else if exists != (err == nil) {
+				bad(fmt.Sprintf("lookup|GetUplinkChannelIndexForFrequencyDR|verdict|found=%v", err == nil), "(%d Hz, DR%d): err=%v idx=%d, but a channel on that frequency carrying DR%d exists=%v", f, dr, err, idx, dr, exists)
+			} else if err == nil && (idx < 0 || idx >= len(up) || up[idx].freq != f || dr < up[idx].min || dr > up[idx].max) {
+				bad("lookup|GetUplinkChannelIndexForFrequencyDR", "(%d Hz, DR%d) = %d which is %+v", f, dr, idx, at(up, idx))
+			}
+		}
+	}
 	// absent frequency
 	absent := uint32(123400)
 	if _, err := b.GetUplinkChannelIndex(absent, true); err == nil {
